@@ -188,6 +188,42 @@ pub fn run(opts: &Opts) -> Run {
             }
         }
     }
+    // (d) `decode_all` into a target that is far too small for a frame of many RLE blocks (a few hundred bytes of input,
+    // tens of MiB of content): the call must fail WITHOUT first decoding and holding the rest of the frame
+    for &(nblocks, room) in &[(200usize, 65_536usize), (120, 1), (60, 1 << 20)] {
+        let mut f = vec![0x28, 0xb5, 0x2f, 0xfd, 0x00, 0x38]; // window 128 KiB
+        for k in 0..nblocks {
+            let h = ((BLOCK as u32) << 3) | (1 << 1) | if k + 1 == nblocks { 1 } else { 0 };
+            f.extend_from_slice(&h.to_le_bytes()[..3]);
+            f.push(k as u8);
+        }
+        let window = 128 << 10;
+        run.oracle_checks += 1;
+        crate::util::watchdog::beat(None);
+        let base = alloc_count::start();
+        let r = guarded(|| {
+            let mut d = FrameDecoder::new();
+            let mut target = vec![0u8; room];
+            let res = d.decode_all(&f, &mut target).map_err(|e| format!("{:?}", e));
+            (res, d.can_collect(), d.blocks_decoded())
+        });
+        let (peak, biggest) = alloc_count::stop(base);
+        distinct += 1;
+        // decode_all works in steps of 1 MiB: window + one step + one block, with the ring's growth factor
+        let b = bound(window, 1 << 20) + room;
+        match r {
+            Ok((res, can, blocks)) => {
+                run.stat(&format!("decode_all_small_target_peak_kib:{}", nblocks), (peak / 1024) as u64);
+                if res.is_ok() {
+                    run.fail("C10", "decode_all_silent_success", format!("decode_all of {} MiB of content into a {} byte target returned {:?}", nblocks * BLOCK >> 20, room, res), format!("hostile input {}", hex(&f)));
+                }
+                if peak > b || can > window + (1 << 20) + BLOCK {
+                    run.fail("C05", "decode_all_small_target_buffers_frame", format!("decode_all into a {} byte target of a {}-block frame ({} bytes of input): the call failed only after decoding {} blocks, holding {} bytes (peak heap growth {} B, largest allocation {} B; bound {} B)", room, nblocks, f.len(), blocks, can, peak, biggest, b), format!("# decode_all(frame, &mut [0u8; {}])\nhostile input {}", room, hex(&f)));
+                }
+            }
+            Err(p) => run.fail("C03", "panic_decode_all", format!("decode_all with a small target panicked: {}", p), format!("hostile input {}", hex(&f))),
+        }
+    }
     run.stat("distinct_nontrivial", distinct);
     run
 }
